@@ -152,6 +152,13 @@ impl Database {
             })
             .collect();
 
+        let unique_index_names: Vec<String> = table_def
+            .indexes()
+            .iter()
+            .filter(|idx| idx.is_unique())
+            .map(|idx| idx.name().to_string())
+            .collect();
+
         let hnsw_indexes: Vec<String> = table_def
             .indexes()
             .iter()
@@ -581,6 +588,7 @@ impl Database {
             if col_indices.is_empty() {
                 continue;
             }
+            let is_unique_index = unique_index_names.iter().any(|n| n == index_name);
             if file_manager.index_exists(schema_name, table_name, index_name) {
                 let index_storage_arc =
                     file_manager.index_data_mut(schema_name, table_name, index_name)?;
@@ -594,20 +602,27 @@ impl Database {
 
                 let mut index_btree = BTree::new(&mut *index_storage, index_root_page)?;
 
-                for (_row_key, _old_value, row_values) in &rows_to_delete {
-                    let all_non_null = col_indices
-                        .iter()
-                        .all(|&idx| row_values.get(idx).is_some_and(|v| !v.is_null()));
-
-                    if all_non_null {
-                        key_buf.clear();
-                        for &col_idx in col_indices {
-                            if let Some(value) = row_values.get(col_idx) {
-                                Self::encode_value_as_key(value, &mut key_buf);
-                            }
-                        }
-                        let _ = index_btree.delete(&key_buf);
+                for (row_key, _old_value, row_values) in &rows_to_delete {
+                    // same key layout as INSERT. Non-unique index: every indexed column
+                    // (NULLs included) followed by the row key. Unique index: the columns
+                    // only, and only when none is NULL.
+                    let indexed = !is_unique_index
+                        || col_indices
+                            .iter()
+                            .all(|&idx| row_values.get(idx).is_some_and(|v| !v.is_null()));
+                    if !indexed {
+                        continue;
                     }
+                    key_buf.clear();
+                    for &col_idx in col_indices {
+                        if let Some(value) = row_values.get(col_idx) {
+                            Self::encode_value_as_key(value, &mut key_buf);
+                        }
+                    }
+                    if !is_unique_index {
+                        key_buf.extend_from_slice(row_key);
+                    }
+                    let _ = index_btree.delete(&key_buf);
                 }
             }
         }
